@@ -225,6 +225,60 @@ func (L *Ledger) ReplayHistory(a Acts, adjust func(bal map[string]map[int]*big.I
 }
 
 // CompareBalances returns a description of the first difference between two balance maps.
+type balDisc struct {
+	addr  string
+	t     int
+	delta string // ledger minus history replay
+	what  string
+}
+
+// CompareBalancesAll lists every (address, asset) whose ledger balance differs from the replay.
+func CompareBalancesAll(got, want map[string]map[int]*big.Int) []balDisc {
+	addrs := map[string]bool{}
+	for a := range got {
+		addrs[a] = true
+	}
+	for a := range want {
+		addrs[a] = true
+	}
+	var list []string
+	for a := range addrs {
+		list = append(list, a)
+	}
+	sort.Strings(list)
+	var out []balDisc
+	for _, a := range list {
+		for t := 1; t < int(fat2.PTickerMax); t++ {
+			g, w := new(big.Int), new(big.Int)
+			if got[a] != nil && got[a][t] != nil {
+				g = got[a][t]
+			}
+			if want[a] != nil && want[a][t] != nil {
+				w = want[a][t]
+			}
+			if g.Cmp(w) != 0 {
+				out = append(out, balDisc{a, t, new(big.Int).Sub(g, w).String(),
+					fmt.Sprintf("address %s asset %s: ledger %v, history replay %v", a, fat2.PTicker(t).String(), g, w)})
+			}
+		}
+	}
+	return out
+}
+
+// MixedPegBatch reports whether the batch has a conversion into PEG next to other transactions.
+func (L *Ledger) MixedPegBatch(hash string) bool {
+	ts := L.T[hash]
+	if len(ts) < 2 {
+		return false
+	}
+	for _, t := range ts {
+		if t.action == 2 && t.toAsset == "PEG" {
+			return true
+		}
+	}
+	return false
+}
+
 func CompareBalances(got, want map[string]map[int]*big.Int) string {
 	addrs := map[string]bool{}
 	for a := range got {
